@@ -289,9 +289,14 @@ private:
                                                              reinterpret_cast<typename View_Src::value_type*>( &image_data.front() ),
                                                              this->_info._width * num_channels< View_Src >::value ) );
 
+        // first row of the requested region in v: the callers flip the destination for top-down files
+        std::ptrdiff_t const first_row = this->_info._screen_origin_bit
+            ? this->_info._height - this->_settings._top_left.y - this->_settings._dim.y
+            : this->_settings._top_left.y;
+
         for( std::ptrdiff_t y = 0; y != this->_settings._dim.y; ++y )
         {
-            typename View_Src::x_iterator beg = v.row_begin( y ) + this->_settings._top_left.x;
+            typename View_Src::x_iterator beg = v.row_begin( first_row + y ) + this->_settings._top_left.x;
             typename View_Src::x_iterator end = beg + this->_settings._dim.x;
             this->_cc_policy.read( beg, end, view.row_begin(y) );
         }
